@@ -2,7 +2,7 @@ import LexVerif.Proof.ParseNumberC11Trunc
 import LexVerif.Proof.ParseNumberTotalMain
 /-!
 # Proof.ParseNumberC11Many — C11 (B): the many-digits re-parse and `parse_number` commute with truncation
-(no digit-separator byte, release build)
+(release build; `NumContig`: no digit-separator byte, or no separator flag on integer / fraction / exponent)
 
 `manyDigitsPhase` reads the original buffer only through two `skip_zeros` runs starting at `ip.start`; both runs
 end at a byte that is not `'0'`, which lies at or before the cursor `parse_number` returns.
